@@ -1122,13 +1122,14 @@ theorem serve_ok (cfg : Config) (specs : List ConnSpec) (evs : List Ev) (s : Srv
 /-- without write failures everything a connection produces reaches its client: the pooled,
     flushing run of a connection that starts from empty buffers is `Conn.run` -/
 theorem runConn_eq_run (cfg : Config) (segs : List Bytes) :
-    (runConn cfg Buf.empty Buf.empty ⟨segs, none⟩).1 = (run cfg segs).map Action'.act := by
+    (runConn cfg Buf.empty Buf.empty ⟨segs, none⟩).1 =
+      ((run cfg segs).filter (fun a => !a.isDropped)).map Action'.act := by
   unfold runConn run feedSegs Buf.empty St.init
   simp only [List.isEmpty_nil, if_true]
   have key : ∀ (chunks : List Bytes) (s : IOSt) (acc : St × List Action),
-      s.st = acc.1 → s.out = acc.2 → s.ended = acc.1.closed → (s.ended = false → s.wbuf = []) →
+      s.st = acc.1 → s.out = acc.2.filter (fun a => !a.isDropped) → s.ended = acc.1.closed → (s.ended = false → s.wbuf = []) →
       (chunks.foldl (ioRead cfg none) s).out =
-        (chunks.foldl (fun (acc : St × List Action) c => let (s', a) := onRead cfg acc.1 c; (s', acc.2 ++ a)) acc).2 := by
+        ((chunks.foldl (fun (acc : St × List Action) c => let (s', a) := onRead cfg acc.1 c; (s', acc.2 ++ a)) acc).2).filter (fun a => !a.isDropped) := by
     intro chunks
     induction chunks with
     | nil => intro s acc _ h2 _ _; simpa using h2
@@ -1177,5 +1178,206 @@ theorem runConn_eq_run (cfg : Config) (segs : List Bytes) :
           rw [hw]
           split <;> (try split) <;> (try split) <;> simp_all
   rw [key _ _ (⟨[], false, false⟩, []) rfl rfl rfl (fun _ => rfl)]
+
+/-! ### the look-alike class: exactly the byte strings the GET recogniser (HEADER_LEN = 14) accepts -/
+
+/-- `buf` is a GET look-alike with key `key`, `total` bytes long: the 13-byte header, ONE ARBITRARY
+    byte, `$`, a decimal usize without CR, CR, ONE ARBITRARY byte, as many key bytes, and at least
+    two more bytes (arbitrary).  A well-formed frame has a digit where the `$` is. -/
+def GetLookalike (buf key : Bytes) (total : Nat) : Prop :=
+  ∃ (hdr : Bytes) (x : Nat) (digits : Bytes) (y : Nat) (tail : Bytes),
+    (hdr = getHdrU ∨ hdr = getHdrL) ∧
+    buf = hdr ++ x :: 36 :: (digits ++ 13 :: y :: (key ++ tail)) ∧
+    13 ∉ digits ∧ parseUsize digits = some key.length ∧ 2 ≤ tail.length ∧
+    total = 13 + 2 + digits.length + 2 + key.length + 2 ∧ total < W
+
+theorem memchrCR_append (a b : Bytes) (h : 13 ∉ a) : memchrCR (a ++ 13 :: b) = some a.length := by
+  induction a with
+  | nil => simp [memchrCR]
+  | cons x xs ih =>
+    simp at h
+    simp only [List.cons_append, memchrCR]
+    rw [if_neg (fun e => h.1 e.symm), ih h.2]
+    simp
+
+theorem memchrCR_some : ∀ (s : Bytes) (r : Nat), memchrCR s = some r →
+    s = s.take r ++ 13 :: s.drop (r + 1) ∧ 13 ∉ s.take r ∧ r < s.length := by
+  intro s
+  induction s with
+  | nil => intro r h; simp [memchrCR] at h
+  | cons x xs ih =>
+    intro r h
+    unfold memchrCR at h
+    by_cases hx : x = 13
+    · simp [hx] at h
+      subst h
+      simp [hx]
+    · simp only [hx, if_false] at h
+      cases hq : memchrCR xs with
+      | none => simp [hq] at h
+      | some q =>
+        simp [hq] at h
+        subst h
+        obtain ⟨h1, h2, h3⟩ := ih q hq
+        refine ⟨?_, ?_, by simp; omega⟩
+        · simp only [List.take_succ_cons, List.drop_succ_cons, List.cons_append]
+          rw [← h1]
+        · simp only [List.take_succ_cons, List.mem_cons, not_or]
+          exact ⟨fun e => hx e.symm, h2⟩
+
+theorem getLookalike_accepted (buf key : Bytes) (total : Nat) (h : GetLookalike buf key total) :
+    recogGet 14 true buf = .get key total := by
+  obtain ⟨hdr, x, digits, y, tail, hh, hb, h13, hpu, ht, htot, hw⟩ := h
+  have hmem := memchrCR_append digits (y :: (key ++ tail)) h13
+  have hadd : (addU true (14 + 1 + (digits.length + 1) + 1) key.length).bind (fun e => addU true e 2) = some total := by
+    unfold addU
+    have e1 : 14 + 1 + (digits.length + 1) + 1 + key.length < W := by omega
+    simp only [if_true, e1, Option.bind_some]
+    have e2 : 14 + 1 + (digits.length + 1) + 1 + key.length + 2 < W := by omega
+    simp only [e2, if_true]
+    congr 1; omega
+  have hslice : ∀ (pre : Bytes), pre.length = 13 →
+      slice (pre ++ x :: 36 :: (digits ++ 13 :: y :: (key ++ tail))) (14 + 1 + (digits.length + 1) + 1)
+        ((14 + 1 + (digits.length + 1) + 1 + key.length) % W) = some key := by
+    intro pre hp
+    rw [Nat.mod_eq_of_lt (by omega)]
+    rw [slice_some _ _ _ (by omega) (by simp [hp]; omega)]
+    congr 1
+    have e : pre ++ x :: 36 :: (digits ++ 13 :: y :: (key ++ tail)) =
+        (pre ++ x :: 36 :: (digits ++ [13, y])) ++ (key ++ tail) := by simp
+    have el : (pre ++ x :: 36 :: (digits ++ [13, y])).length = 14 + 1 + (digits.length + 1) + 1 := by
+      simp [hp]; omega
+    generalize pre ++ x :: 36 :: (digits ++ [13, y]) = P at e el
+    rw [e, ← el]
+    have t1 : (P ++ (key ++ tail)).take (P.length + key.length) = P ++ key := by
+      rw [List.take_append, List.take_of_length_le (by omega)]
+      simp
+    rw [t1, List.drop_left']
+    rfl
+  subst hb
+  unfold recogGet
+  rcases hh with rfl | rfl
+  · have hs : (startsWith (getHdrU ++ x :: 36 :: (digits ++ 13 :: y :: (key ++ tail))) getHdrU ||
+        startsWith (getHdrU ++ x :: 36 :: (digits ++ 13 :: y :: (key ++ tail))) getHdrL) = true := by
+      simp [startsWith, getHdrU, List.isPrefixOf]
+    have hl : ¬ (getHdrU ++ x :: 36 :: (digits ++ 13 :: y :: (key ++ tail))).length < 14 + 1 := by
+      simp [getHdrU]
+    have hd : (getHdrU ++ x :: 36 :: (digits ++ 13 :: y :: (key ++ tail))).drop 14 = 36 :: (digits ++ 13 :: y :: (key ++ tail)) := by
+      simp [getHdrU]
+    have hlen : ¬ (getHdrU ++ x :: 36 :: (digits ++ 13 :: y :: (key ++ tail))).length < total := by
+      simp [getHdrU]; omega
+    simp only [hs, not_true_eq_false, if_false, hl, hd, List.head?_cons, ne_eq, not_true_eq_false,
+      List.drop_succ_cons, List.drop_zero, hmem, List.take_left', hpu, hadd, hlen]
+    simp only [hslice getHdrU rfl]
+  · have hs : (startsWith (getHdrL ++ x :: 36 :: (digits ++ 13 :: y :: (key ++ tail))) getHdrU ||
+        startsWith (getHdrL ++ x :: 36 :: (digits ++ 13 :: y :: (key ++ tail))) getHdrL) = true := by
+      simp [startsWith, getHdrU, getHdrL, List.isPrefixOf]
+    have hl : ¬ (getHdrL ++ x :: 36 :: (digits ++ 13 :: y :: (key ++ tail))).length < 14 + 1 := by
+      simp [getHdrL]
+    have hd : (getHdrL ++ x :: 36 :: (digits ++ 13 :: y :: (key ++ tail))).drop 14 = 36 :: (digits ++ 13 :: y :: (key ++ tail)) := by
+      simp [getHdrL]
+    have hlen : ¬ (getHdrL ++ x :: 36 :: (digits ++ 13 :: y :: (key ++ tail))).length < total := by
+      simp [getHdrL]; omega
+    simp only [hs, not_true_eq_false, if_false, hl, hd, List.head?_cons, ne_eq, not_true_eq_false,
+      List.drop_succ_cons, List.drop_zero, hmem, List.take_left', hpu, hadd, hlen]
+    simp only [hslice getHdrL rfl]
+
+theorem slice_eq (buf : Bytes) (a b : Nat) (r : Bytes) (h : slice buf a b = some r) :
+    a ≤ b ∧ b ≤ buf.length ∧ r = (buf.take b).drop a := by
+  unfold slice at h
+  split at h
+  · simp at h
+  · simp at h; exact ⟨by omega, by omega, h.symm⟩
+
+theorem getLookalike_of_accepted (buf key : Bytes) (total : Nat) (h : recogGet 14 true buf = .get key total) :
+    GetLookalike buf key total := by
+  unfold recogGet at h
+  split at h
+  · simp at h
+  · rename_i hsw
+    split at h
+    · simp at h
+    · rename_i hlen
+      simp only [] at h
+      split at h
+      · simp at h
+      · rename_i h36
+        split at h
+        · simp at h
+        · rename_i r hr
+          split at h
+          · simp at h
+          · rename_i n hn
+            split at h
+            · simp at h
+            · rename_i tot hadd
+              split at h
+              · simp at h
+              · rename_i hge
+                split at h
+                · simp at h
+                · rename_i k hsl
+                  simp at h
+                  obtain ⟨hk, ht⟩ := h
+                  subst hk ht
+                  have ha := addU2_checked _ _ _ hadd
+                  rw [Nat.mod_eq_of_lt (by unfold W at *; omega)] at hsl
+                  obtain ⟨s1, s2, s3⟩ := slice_eq _ _ _ _ hsl
+                  simp only [List.drop_drop] at hr hn
+                  obtain ⟨m1, m2, m3⟩ := memchrCR_some _ _ hr
+                  -- the header
+                  simp only [Decidable.not_not, Bool.or_eq_true] at hsw
+                  have hhdr : ∃ hdr, (hdr = getHdrU ∨ hdr = getHdrL) ∧ buf.take 13 = hdr := by
+                    cases hsw with
+                    | inl hs => exact ⟨getHdrU, Or.inl rfl, (startsWith_take buf getHdrU hs).1⟩
+                    | inr hs => exact ⟨getHdrL, Or.inr rfl, (startsWith_take buf getHdrL hs).1⟩
+                  obtain ⟨hdr, hh, hhd⟩ := hhdr
+                  have hl15 : 15 ≤ buf.length := by omega
+                  -- byte 14 is `$`
+                  have h14 : buf[14]? = some 36 := by
+                    have : (buf.drop 14).head? = buf[14]? := by simp [List.head?_drop]
+                    rw [← this]
+                    simpa using h36
+                  -- cut the buffer
+                  have e0 : buf = buf.take 13 ++ buf.drop 13 := (List.take_append_drop 13 buf).symm
+                  have e1 : buf.drop 13 = buf[13] :: buf.drop 14 := by
+                    rw [List.drop_eq_getElem_cons (by omega)]
+                  have e2 : buf.drop 14 = 36 :: buf.drop 15 := by
+                    rw [List.drop_eq_getElem_cons (by omega)]
+                    congr 1
+                    have := List.getElem?_eq_getElem (l := buf) (i := 14) (by omega)
+                    rw [this] at h14
+                    simpa using h14
+                  have hr15 : (1 + 14 : Nat) = 15 := rfl
+                  rw [hr15] at m1 m2 m3 hn
+                  -- what follows the CR: one byte, the key, at least two more
+                  have hrest : (buf.drop 15).length = buf.length - 15 := by simp
+                  have hdl : ((buf.drop 15).drop (r + 1)).length = buf.length - 15 - (r + 1) := by simp; omega
+                  have hb1 : ∃ y b', (buf.drop 15).drop (r + 1) = y :: b' := by
+                    cases hq : (buf.drop 15).drop (r + 1) with
+                    | nil => rw [hq] at hdl; simp at hdl; omega
+                    | cons y b' => exact ⟨y, b', rfl⟩
+                  obtain ⟨y, b', hb'⟩ := hb1
+                  have hb'l : b'.length = buf.length - 15 - (r + 1) - 1 := by
+                    rw [hb'] at hdl; simp at hdl; omega
+                  have hkey : (buf.take (14 + 1 + (r + 1) + 1 + n)).drop (14 + 1 + (r + 1) + 1) = b'.take n := by
+                    have eb : buf = (buf.take 13 ++ buf[13] :: 36 :: ((buf.drop 15).take r ++ [13, y])) ++ b' := by
+                      conv => lhs; rw [e0, e1, e2, m1, hb']
+                      simp
+                    have el : (buf.take 13 ++ buf[13] :: 36 :: ((buf.drop 15).take r ++ [13, y])).length = 14 + 1 + (r + 1) + 1 := by
+                      simp; omega
+                    generalize buf.take 13 ++ buf[13] :: 36 :: ((buf.drop 15).take r ++ [13, y]) = P at eb el
+                    rw [eb, ← el, List.take_append, List.take_of_length_le (by omega)]
+                    simp
+                  have hk : k = b'.take n := by rw [s3]; exact hkey
+                  have hkl : k.length = n := by rw [hk]; simp; omega
+                  have hDl : ((buf.drop 15).take r).length = r := by simp; omega
+                  refine ⟨hdr, buf[13], (buf.drop 15).take r, y, b'.drop n, hh, ?_, m2, ?_, ?_, ?_, ?_⟩
+                  · conv => lhs; rw [e0, e1, e2, m1, hb', hhd]
+                    rw [hk, List.take_append_drop]
+                  · rw [hn, hkl]
+                  · simp; omega
+                  · rw [hDl, hkl]; omega
+                  · omega
 
 end RedisVerif.Conn
